@@ -32,6 +32,10 @@ CLAIMED = {
    technique="deterministic simulation: signer (restartable, stored key can be corrupted) -> faulty transport -> verifier, BLS signers with an aggregator, entropy device behind hedged signing; per-field faults plus enumeration of every single-bit flip and truncation length of one signature per scheme",
    text="For all sign/schemes plus Ed25519ctx/ph, Ed448ph and BLS in both groups: honest signatures verify, have the advertised size and are byte-identical from the original and the restarted signer; then exactly one fault hits (pk, msg, ctx, mode or sig): bit flip, truncation, appended bytes, S+L, zeros, another session's signature, another signer's key, altered/over-long context, another mode (incl. pure/ctx verification of the prehash), a bit flipped in the public half of the signer's stored key, dropped/duplicated/mis-attributed aggregate shares, entropy faults; verification must return false and never panic. Directed part enumerates all single-bit flips and all truncation lengths of one signature per kind.",
    note="Appended bytes to public keys are no-panic only (documented prefix parsing); sampled, not exhaustive."),
+ "C17": dict(engine="netsim", level="exploration", ref="DESIGN.md §3 C17",
+   technique="deterministic simulation: dealer, share holders / players and combiner; crash faults choose the alive subset, the transport shuffles, duplicates and corrupts shares, holders restart from marshalled shares; enumeration of all subsets for small (l,k)",
+   text="Shamir/Feldman over four groups and Shoup threshold RSA over fixture keys: every dealt share verifies against the commitment and an altered one does not; any alive set of at least t+1 (resp. k) distinct intact shares, in any arrival order, recovers exactly the secret (resp. yields a signature crypto/rsa verifies under PKCS#1 v1.5 and PSS); smaller sets are refused. Directed part enumerates all subsets for l<=4 (thorough l<=6); seeded part samples l up to 30, blinded/unblinded, cached/uncached, restarts and corruption.",
+   note="Combiner removes duplicates first; crypto/rsa is the signature oracle; keys are fixtures."),
 }
 
 NA = {
